@@ -121,7 +121,8 @@ def generated_case(rng, profile=None):
             cands = sorted(set(c for c in cands if c >= lay[k][1]))
             if not cands:
                 continue
-            case.defs.append({"name": nm, "file": f.path, "a": lay[k][0], "b": lay[k][1], "cands": cands, "idx": k})
+            case.defs.append({"name": nm, "file": f.path, "a": lay[k][0], "b": lay[k][1], "cands": cands, "idx": k,
+                              "extern": bool(getattr(s.info.get("const"), "extern", False))})
     return case
 
 
@@ -234,10 +235,15 @@ def make_schedules(rng, case, n):
                         later = [p for p in d["cands"] if p >= stmts[j][1]]
                         if later:
                             aimed.append((k, later, kind in SIZE_KINDS or "%" in stmts[j][3]))
+    externs = [k for k, d in enumerate(defs) if d.get("extern")]
     for _ in range(n):
         style = rng.random()
         sched = {}
-        if style < 0.25:
+        if externs and style < 0.12:
+            # an exported constant (visible to other linked files) moved towards the end of its file
+            k = rng.choice(externs)
+            sched[k] = defs[k]["cands"][-1] if rng.random() < 0.6 else rng.choice(defs[k]["cands"])
+        elif style < 0.25:
             k = rng.randrange(len(defs))
             sched[k] = rng.choice(defs[k]["cands"])
         elif style < 0.40:
